@@ -498,3 +498,41 @@ func init() {
 		return fr.i.ex.deepEq(args[0], args[1], map[[2]*value]bool{})
 	}
 }
+
+func init() {
+	// errors.Is without reflectlite: identity / == on the chain of Unwrap() error.
+	intrinsics["errors.Is"] = func(fr *frame, args []value) value {
+		err, target := args[0].(iface), args[1].(iface)
+		for depth := 0; depth < 16; depth++ {
+			if err.t == nil {
+				return target.t == nil
+			}
+			if target.t != nil && sameType(err.t, target.t) {
+				if b, ok := fr.i.ex.eqValue(err.t, err.v, target.v).(bool); ok && b {
+					return true
+				}
+			}
+			ms := fr.i.prog.MethodSets.MethodSet(err.t)
+			var next *iface
+			for k := 0; k < ms.Len(); k++ {
+				sel := ms.At(k)
+				if sel.Obj().Name() == "Unwrap" {
+					sig := sel.Type().(*types.Signature)
+					if sig.Params().Len() == 0 && sig.Results().Len() == 1 {
+						if f := fr.i.prog.MethodValue(sel); f != nil {
+							r := call(fr.i, fr, token.NoPos, f, []value{err.v})
+							if ri, ok := r.(iface); ok {
+								next = &ri
+							}
+						}
+					}
+				}
+			}
+			if next == nil {
+				return false
+			}
+			err = *next
+		}
+		return false
+	}
+}
